@@ -311,6 +311,8 @@ def transpose(score: ScoreLike, interval: Interval) -> ScoreLike:
         parts = [new_score]
     else:
         parts = []
+    # a part that the score lists twice is one object: move its notes once
+    parts = list({id(part): part for part in parts}.values())
     # transpose the copy, never the argument; every note of a tie chain
     # (not only its first one) has to move
     for part in parts:
